@@ -8,19 +8,19 @@ Open Scope R_scope.
 (* PolyPade: the two spellings of the value and of the gradient factor agree *)
 Theorem C04_polypade_routes_agree : forall r beta rcut, rcut <> 0 ->
   pp_value r beta rcut = pp_gv_value r beta rcut /\ pp_gv_gradr r beta rcut = pp_gl_gradr r beta rcut.
-Proof. intros. split; [apply pp_values_agree; assumption|apply pp_gradr_agree]. Qed.
+Proof. intros. split; [apply gen_pp_values_agree; assumption|apply gen_pp_gradr_agree]. Qed.
 Print Assumptions C04_polypade_routes_agree.
 
 (* the gradient is the derivative of the value: d value/dr = r G(r), for all parameters and all radii where the function is defined *)
 Theorem C04_polypade_gradient_is_derivative : forall r beta rcut, rcut <> 0 -> 1 + beta * pp_p r rcut <> 0 ->
   is_derive (fun x => pp_gv_value x beta rcut) r (r * pp_gv_gradr r beta rcut).
-Proof. exact pp_value_derivative. Qed.
+Proof. exact gen_pp_value_derivative. Qed.
 Print Assumptions C04_polypade_gradient_is_derivative.
 
 (* the Laplacian is f'' + 2 f'/r *)
 Theorem C04_polypade_laplacian_is_second_derivative : forall r beta rcut, r <> rcut -> rcut <> 0 -> 1 + beta * pp_p r rcut <> 0 ->
   is_derive (fun x => x * pp_gl_gradr x beta rcut) r (pp_gl_lap r beta rcut - 2 * pp_gl_gradr r beta rcut).
-Proof. exact pp_laplacian_is_second_derivative. Qed.
+Proof. exact gen_pp_laplacian_is_second_derivative. Qed.
 Print Assumptions C04_polypade_laplacian_is_second_derivative.
 
 (* at the cutoff: value, slope and Laplacian (its regular form, equal to the reported one for r <> rcut) vanish,
@@ -29,10 +29,15 @@ Theorem C04_polypade_smooth_at_cutoff : forall beta rcut, rcut <> 0 ->
   (pp_gv_value rcut beta rcut = 0 /\ pp_value rcut beta rcut = 0) /\ (pp_gv_gradr rcut beta rcut = 0 /\ pp_gl_gradr rcut beta rcut = 0) /\
   pp_lap_regular rcut beta rcut = 0 /\ (forall r, r <> rcut -> pp_gl_lap r beta rcut = pp_lap_regular r beta rcut).
 Proof.
-  intros beta rcut Hc. split; [apply pp_value_zero_at_cutoff; assumption|]. split; [apply pp_slope_zero_at_cutoff; assumption|].
-  split; [apply pp_lap_zero_at_cutoff; assumption|]. intros r Hr. apply pp_lap_regular_form; assumption.
+  intros beta rcut Hc. split; [apply gen_pp_value_zero_at_cutoff; assumption|]. split; [apply gen_pp_slope_zero_at_cutoff; assumption|].
+  split; [apply pp_lap_zero_at_cutoff; assumption|]. intros r Hr. apply gen_pp_lap_regular_form; assumption.
 Qed.
 Print Assumptions C04_polypade_smooth_at_cutoff.
+
+(* energy.kinetic (two symbolic passes through its electron loop): the reported kinetic energy is -1/2 times the sum of the Laplacians *)
+Theorem C04_kinetic_energy_is_minus_half_the_laplacians : forall lap1 lap2, kinetic_two_electrons lap1 lap2 = - (lap1 + lap2) / 2.
+Proof. exact kinetic_is_minus_half_sum. Qed.
+Print Assumptions C04_kinetic_energy_is_minus_half_the_laplacians.
 
 (* cusp function *)
 Theorem C04_cusp_routes_agree : forall r gamma rcut, rcut <> 0 -> r <> 0 -> 1 + gamma * cusp_b r rcut <> 0 ->
